@@ -37,10 +37,14 @@
 (*   Patch_AbsoluteOffset      length patched at mem[lenPos] (ignoring rd) *)
 (*   Len_IncludesTrailer       length measured after the trailer           *)
 (*   Checksum_BeforePatch      checksum computed before the length patch   *)
+(* Registry x frames (RegistryOps = TRUE): RemoveSvc / RestoreSvc of the   *)
+(* checksum services; a frame encoded while its service is absent keeps    *)
+(* the caller's checksum (what the code does; C05 assumes the start-up     *)
+(* registry) - FramesRight then compares with ExpectedEnc.                 *)
 (***************************************************************************)
 EXTENDS Codec, SequencesExt
 
-CONSTANTS MaxOps, Deviations, JunkBytes
+CONSTANTS MaxOps, Deviations, JunkBytes, RegistryOps   \* RegistryOps: include Remove/Restore of checksum services
 
 Msgs == ndJsonDeserialize(IOEnv.VERIF_VALUES)      \* sequence of [t, v]
 MsgIds == 1..Len(Msgs)
@@ -112,7 +116,8 @@ Encode(m) ==
          app == Drop(s.mem, Len(mem))
      IN /\ mem' = s.mem /\ rd' = s.rd
         /\ obj' = [obj EXCEPT ![m] = s.v]
-        /\ frames' = IF s.ok THEN Append(frames, [s |-> Len(mem), e |-> Len(s.mem), t |-> T, pinned |-> EncMsg(T, obj[m]).bytes]) ELSE frames
+        /\ frames' = IF s.ok THEN Append(frames, [s |-> Len(mem), e |-> Len(s.mem), t |-> T, pinned |-> ExpectedEnc(T, obj[m], reg).bytes,
+                                                   summed |-> (T \in CsumTypes /\ ChecksumAlg(T) \in reg)]) ELSE frames
         /\ IF s.ok /\ Len(Unread) = lead + QLen
            THEN q' = Append(q, [t |-> T, v |-> obj[m], vp |-> s.v, bytes |-> app]) /\ UNCHANGED lead
            ELSE UNCHANGED <<q, lead>>
@@ -160,7 +165,21 @@ SetStale(m) ==
         /\ Log([op |-> "stale", m |-> m, t |-> T, vpost |-> v2])
   /\ UNCHANGED <<mem, rd, reg, frames, q, lead>>
 
+(* registry x frames: the application removes / re-registers a checksum service *)
+UsedAlgs == {ChecksumAlg(Msgs[m].t) : m \in {m \in MsgIds : Msgs[m].t \in CsumTypes}}
+RemoveSvc(a) ==
+  /\ nops < MaxOps /\ RegistryOps /\ a \in reg
+  /\ reg' = reg \ {a}
+  /\ Log([op |-> "regremove", alg |-> a])
+  /\ UNCHANGED <<mem, rd, obj, frames, q, lead>>
+RestoreSvc(a) ==
+  /\ nops < MaxOps /\ RegistryOps /\ a \notin reg
+  /\ reg' = reg \cup {a}
+  /\ Log([op |-> "regrestore", alg |-> a])
+  /\ UNCHANGED <<mem, rd, obj, frames, q, lead>>
+
 Next == \/ \E m \in MsgIds : Encode(m) \/ SetStale(m)
+        \/ \E a \in UsedAlgs : RemoveSvc(a) \/ RestoreSvc(a)
         \/ \E T \in {Msgs[m].t : m \in MsgIds} : Decode(T)
         \/ \E k \in {1, 5} \cup (IF Len(q) > 0 /\ lead = 0 THEN {Len(q[1].bytes)} ELSE {}) : NextK(k)
         \/ Reset \/ WriteRaw
@@ -177,13 +196,13 @@ FramesRight ==
     LET f == frames[i] w == FrameBytes(f) IN
     /\ w = f.pinned
     /\ f.t \in FrameTypes => LenFieldOf(f.t, w) = CorrectLen(f.t, w)
-    /\ f.t \in CsumTypes => CsumFieldOf(f.t, w) = CorrectCsum(f.t, w)
+    /\ f.summed => CsumFieldOf(f.t, w) = CorrectCsum(f.t, w)
 
 ObjectReports ==
   last.op = "encode" /\ last.res = "ok" /\ last.t \in FrameTypes =>
     LET f == frames[Len(frames)] w == FrameBytes(f) IN
     /\ last.vpost[LenName(last.t)] = CorrectLen(last.t, w)
-    /\ last.t \in CsumTypes => last.vpost[CsumName(last.t)] = CorrectCsum(last.t, w)
+    /\ f.summed => last.vpost[CsumName(last.t)] = CorrectCsum(last.t, w)
 
 (* channel view: the aligned head decodes to the message that was encoded, consuming exactly its bytes *)
 HeadDecodes ==
